@@ -4,6 +4,9 @@
 
 pub assume_specification[ std::string::String::len ](s: &std::string::String) -> (r: usize)
     ensures r <= isize::MAX;
+// String -> bytes by `into_bytes()` is the same conversion as `.into()`
+pub assume_specification[ std::string::String::into_bytes ](s: String) -> (r: Vec<u8>)
+    ensures r@ == string_bytes(s);
 #[derive(Debug)]
 pub struct Utf8Error;
 #[derive(Debug)]
